@@ -197,3 +197,54 @@ def check_subclass_chains(idx, run, rule):
                       sample={"rule": rule, "class": cls.name,
                               "reason": FORCE_SETTERS.get(cls.name)})
     return setters
+
+
+def check_fresh_unknown(idx, run, rule):
+    """The dependence-distance solver introduces an unknown `d_<var>` and
+    solves for it.  The name has to differ from every variable of the two
+    subscripts, otherwise a user variable of that name is solved for instead
+    (distance 0 => "no loop-carried dependence").  The renaming loop must
+    therefore test the candidate against the *names* known to the SymPy
+    writer (the keys of the type map) and must make progress."""
+    cls = idx.get_class(
+        "psyclone.psyir.tools.dependency_tools.DependencyTools")
+    func = cls.methods.get("_get_dependency_distance")
+    if func is None:
+        raise AnalysisError("_get_dependency_distance not found")
+    mod = cls.module
+    cons = "DependencyTools._get_dependency_distance"
+    whiles = [s for s in ast.walk(func) if isinstance(s, ast.While) and
+              isinstance(s.test, ast.Compare) and
+              isinstance(s.test.ops[0], ast.In)]
+    if len(whiles) != 1:
+        raise AnalysisError(f"{cons}: the renaming loop for the distance "
+                            f"unknown was not found")
+    loop = whiles[0]
+    cand = ast.unparse(loop.test.left)
+    coll = ast.unparse(loop.test.comparators[0])
+    # the map returned together with the sympy expressions
+    maps = set()
+    for st in ast.walk(func):
+        if isinstance(st, ast.Assign) and isinstance(st.targets[0], ast.Tuple)\
+                and "type_map" in ast.unparse(st.value) or \
+                isinstance(st, ast.Assign) and "type_map" in \
+                ast.unparse(st.value):
+            for tgt in ast.walk(st.targets[0]):
+                if isinstance(tgt, ast.Name):
+                    maps.add(tgt.id)
+    ok = coll in maps or any(coll == f"{m}.keys()" for m in maps)
+    run.check(rule, ok, cons,
+              "the distance unknown is renamed until it differs from every "
+              "variable name",
+              f"the candidate '{cand}' is tested against '{coll}', which is "
+              f"not the set of variable names of the SymPy type map "
+              f"({sorted(maps)}): with a program variable called d_i the "
+              f"solver's unknown d_i coincides with it, the distance of "
+              f"a(i) / a(i + d_i) is solved as 0 and the loop is declared "
+              f"parallel", loc(mod, loop))
+    uses = [s for s in ast.walk(func) if isinstance(s, ast.Call) and
+            ast.unparse(s.func).endswith("Symbol") and s.args and
+            ast.unparse(s.args[0]) == cand]
+    run.check(rule, bool(uses), cons,
+              "the unknown is created from the renamed candidate",
+              f"no sympy Symbol is created from '{cand}'", loc(mod, loop))
